@@ -129,7 +129,20 @@ func vmValuePushOps(c *Ctx) (cloning, copying map[string]bool) {
 	for _, cl := range r.dispSw.Body.List {
 		cc := cl.(*ast.CaseClause)
 		asserts, clones := false, false
+		// the clause and the handler methods it hands the instruction to
+		var scope []ast.Node
 		for _, s := range cc.Body {
+			scope = append(scope, s)
+		}
+		for _, e := range cc.List {
+			if k := ConstOf(info, e); k != nil {
+				if _, nodes := r.handlerNodes(k); nodes != nil {
+					scope = nodes
+				}
+				break
+			}
+		}
+		for _, s := range scope {
 			ast.Inspect(s, func(n ast.Node) bool {
 				switch x := n.(type) {
 				case *ast.TypeAssertExpr:
@@ -202,6 +215,7 @@ func ruleVMEmitMust(c *Ctx) []Obligation {
 		if u.name != "case ForStatementKind" {
 			continue
 		}
+		u = vmExpandUnit(c, r, w, u)
 		forUnits++
 		var bad []string
 		n := 0
@@ -315,25 +329,50 @@ func ruleVMEmitMust(c *Ctx) []Obligation {
 	}
 
 	// ---- (c) short-circuit lowering
+	// The lowering of operator K is the set of paths of the function that decides on the
+	// operator (a switch clause, an if-chain, a helper that receives `op == K` as a flag …)
+	// that are feasible when the operator of the node equals K.
 	for _, sc := range []struct {
 		konst  string
 		absorb bool // the value of the expression when the left operand decides it
 	}{{"LogicalAndInfixOperator", false}, {"LogicalOrInfixOperator", true}} {
-		vmConst(c, "homescript/parser/ast", sc.konst)
+		k := vmConst(c, "homescript/parser/ast", sc.konst)
 		found := false
-		for _, u := range w.units {
-			if u.name != "case "+sc.konst {
+		for _, fn := range r.fns {
+			obj, _ := fn.info.Defs[fn.fd.Name].(*types.Func)
+			if obj == nil || !r.emitters[obj] || !vmDecidesOn(fn, k) {
+				continue
+			}
+			as := &vmAssume{info: fn.info, k: k}
+			var paths []*vmPath
+			var trs [][]vmEm
+			pos := fn.fd.Pos()
+			for _, u0 := range w.units {
+				if u0.fn.fd != fn.fd {
+					continue
+				}
+				u := vmExpandUnit(c, r, w, u0)
+				for pi, tr := range u.trs {
+					p := u.paths[pi]
+					if !vmNormalExit(p) || !as.feasible(p) {
+						continue
+					}
+					if u0.name == "case "+sc.konst {
+						pos = u0.pos
+					}
+					paths = append(paths, p)
+					trs = append(trs, tr)
+				}
+			}
+			if len(paths) == 0 {
 				continue
 			}
 			found = true
-			info := u.fn.info
+			info := fn.info
 			var bad []string
 			n := 0
-			for pi, tr := range u.trs {
-				p := u.paths[pi]
-				if !vmNormalExit(p) {
-					continue
-				}
+			for pi, tr := range trs {
+				p := paths[pi]
 				n++
 				wit := fmt.Sprintf("emitted: %s (path [%s])", vmTraceStr(tr), p.decisions())
 				var comps []int
@@ -389,6 +428,12 @@ func ruleVMEmitMust(c *Ctx) []Obligation {
 					continue
 				}
 				val, isBool := vmBoolConstOf(info, tr[lab+1].args[len(tr[lab+1].args)-1])
+				if !isBool {
+					// the constant depends on the operator (`NewValueBool(isOr)`): evaluate it for this operator
+					if x := vmBoolArgOf(tr[lab+1].args[len(tr[lab+1].args)-1]); x != nil {
+						val, isBool = as.eval(p, tr[lab+1].evIdx, x, 0)
+					}
+				}
 				// JumpIfFalse jumps when (lhs XOR nots odd) is false, i.e. when lhs == (nots odd)
 				jumpsWhenLhs := nots%2 == 1
 				switch {
@@ -400,7 +445,7 @@ func ruleVMEmitMust(c *Ctx) []Obligation {
 					bad = append(bad, fmt.Sprintf("the short-circuit path pushes %v, want %v; %s", val, sc.absorb, wit))
 				}
 			}
-			obs = append(obs, vmOb(c, u.key()+"|short-circuit: conditional jump between the operands, over the right operand, to the absorbing constant", u.pos, bad, fmt.Sprintf("%d normal path(s)", n)))
+			obs = append(obs, vmOb(c, fn.name+"|case "+sc.konst+"|short-circuit: conditional jump between the operands, over the right operand, to the absorbing constant", pos, bad, fmt.Sprintf("%d normal path(s)", n)))
 		}
 		if !found {
 			obs = append(obs, Obligation{Key: "compiler|case " + sc.konst, Pos: "?", Status: Undecided, Detail: "no compile clause found for this operator"})
@@ -434,4 +479,145 @@ func vmBoolConstOf(info *types.Info, e ast.Expr) (val, ok bool) {
 		return false, false
 	}
 	return tv.Value.ExactString() == "true", true
+}
+
+// vmBoolArgOf: the argument X of (a dereference of) a one-argument call, e.g. *value.NewValueBool(X).
+func vmBoolArgOf(e ast.Expr) ast.Expr {
+	e = ast.Unparen(e)
+	if s, isStar := e.(*ast.StarExpr); isStar {
+		e = ast.Unparen(s.X)
+	}
+	call, isCall := e.(*ast.CallExpr)
+	if !isCall || len(call.Args) != 1 {
+		return nil
+	}
+	return call.Args[0]
+}
+
+// vmDecidesOn: the function's own body tests the enum constant k (a switch
+// clause listing it, or an ==/!= comparison with it).
+func vmDecidesOn(fn *vmFn, k *types.Const) bool {
+	found := false
+	ast.Inspect(fn.fd.Body, func(n ast.Node) bool {
+		switch x := n.(type) {
+		case *ast.CaseClause:
+			for _, e := range x.List {
+				if ConstOf(fn.info, e) == k {
+					found = true
+				}
+			}
+		case *ast.BinaryExpr:
+			if x.Op == token.EQL || x.Op == token.NEQ {
+				if ConstOf(fn.info, x.X) == k || ConstOf(fn.info, x.Y) == k {
+					found = true
+				}
+			}
+		}
+		return !found
+	})
+	return found
+}
+
+// vmAssume evaluates conditions under the assumption that every (non-constant)
+// expression of k's enum type on the path — the operator of the node being
+// lowered — equals k.
+type vmAssume struct {
+	info *types.Info
+	k    *types.Const
+}
+
+func (a *vmAssume) isSubject(e ast.Expr) bool {
+	if ConstOf(a.info, ast.Unparen(e)) != nil {
+		return false
+	}
+	t := a.info.TypeOf(e)
+	return t != nil && types.Identical(t, a.k.Type())
+}
+
+func (a *vmAssume) eval(p *vmPath, at int, e ast.Expr, depth int) (val, known bool) {
+	if depth > 8 {
+		return false, false
+	}
+	e = ast.Unparen(e)
+	if tv, ok := a.info.Types[e]; ok && tv.Value != nil && tv.Value.Kind().String() == "Bool" {
+		return tv.Value.ExactString() == "true", true
+	}
+	switch x := e.(type) {
+	case *ast.UnaryExpr:
+		if x.Op == token.NOT {
+			v, ok := a.eval(p, at, x.X, depth+1)
+			return !v, ok
+		}
+	case *ast.BinaryExpr:
+		switch x.Op {
+		case token.LAND, token.LOR:
+			l, lk := a.eval(p, at, x.X, depth+1)
+			r, rk := a.eval(p, at, x.Y, depth+1)
+			if x.Op == token.LAND {
+				if (lk && !l) || (rk && !r) {
+					return false, true
+				}
+				return l && r, lk && rk
+			}
+			if (lk && l) || (rk && r) {
+				return true, true
+			}
+			return l || r, lk && rk
+		case token.EQL, token.NEQ:
+			var other *types.Const
+			switch {
+			case a.isSubject(x.X):
+				other = ConstOf(a.info, ast.Unparen(x.Y))
+			case a.isSubject(x.Y):
+				other = ConstOf(a.info, ast.Unparen(x.X))
+			}
+			if other != nil && types.Identical(other.Type(), a.k.Type()) {
+				return (other == a.k) == (x.Op == token.EQL), true
+			}
+		}
+	case *ast.Ident:
+		r, k, _ := vmResolveAt(a.info, p.binds, p.ev, at, x)
+		if r != ast.Expr(x) {
+			return a.eval(p, k, r, depth+1)
+		}
+	}
+	return false, false
+}
+
+// feasible: no decision on the path contradicts the assumption.
+func (a *vmAssume) feasible(p *vmPath) bool {
+	for j, e := range p.ev {
+		switch e.K {
+		case evCond:
+			if v, known := a.eval(p, j, e.X, 0); known && v != e.Taken {
+				return false
+			}
+		case evCase:
+			if e.Select {
+				continue
+			}
+			sw, _ := e.Sw.(*ast.SwitchStmt)
+			if sw == nil || sw.Tag == nil || !a.isSubject(sw.Tag) {
+				continue
+			}
+			if e.Vals != nil {
+				has := false
+				for _, v := range e.Vals {
+					if ConstOf(a.info, v) == a.k {
+						has = true
+					}
+				}
+				if !has {
+					return false
+				}
+			} else {
+				for _, v := range e.Others {
+					if ConstOf(a.info, v) == a.k {
+						return false
+					}
+				}
+			}
+		}
+	}
+	return true
 }
